@@ -63,6 +63,7 @@ func init() {
 			"concurrent part: three thread sets of catalog operations (create || write-new-year; + destroy; destroy || query || create) on the real catalog, ALL interleavings with <=2 deviations (thorough 3), same invariant on the end state. non-trivial = sequences of >=2 operations / schedules with >=1 deviation",
 		Assume:   []string{"UTC", "BackgroundSync=false", "states merged by canonical form have the same futures: the canonical form holds everything the operations read (files, headers, catalog tree)"},
 		QuickMax: 6 * time.Minute, ThorMax: 30 * time.Minute,
+		Race: &mc.RaceSpec{Scenarios: []string{"create-write-query", "create-write-destroy"}, Quick: 6, Thorough: 60},
 	}, func(c *mc.Ctx, yield func(schedSpec)) {
 		c17Enum(c, func(s c17Spec) { yield(schedSpec{Scen: -1, Prefix: s.Seq, Single: true}) })
 		schedEnum(c17Scens, func(c *mc.Ctx, si int) int {
@@ -331,7 +332,12 @@ func c17Invariant(w *world.World, op c17Op) (string, string) {
 			return "reload-differs|" + op.kind, fmt.Sprintf("device holds %s but a freshly loaded catalog lists %s", ds, fs)
 		}
 	}
+	var dks []string
 	for k := range disk {
+		dks = append(dks, k)
+	}
+	sort.Strings(dks) // fixed order: map iteration order would make device reads differ between runs
+	for _, k := range dks {
 		if _, err := w.QueryAll(k); err != nil {
 			return "query-fails|" + op.kind, fmt.Sprintf("bucket %s exists but the query fails: %v", k, err)
 		}
